@@ -4,8 +4,8 @@ package sym
 
 import (
 	"fmt"
-	"os"
 	"go/types"
+	"os"
 	"sort"
 	"strings"
 	"sync/atomic"
@@ -84,6 +84,7 @@ type pathState struct {
 	inconclusive []string
 	violations   []Violation
 	rangeCount   int
+	floatTokens  []*Term
 	merging      int // >0 while executing a merged (if-converted) call
 	mergeDecs    []mergeDec
 	mergePos     int
